@@ -650,6 +650,19 @@ func (ndb *nodeDB) DeleteVersionsFrom(fromVersion int64) error {
 	}
 
 	// NOTICE: we don't touch fast node indexes here, because it'll be rebuilt later because of version mismatch.
+	// The mismatch is not guaranteed when new versions are committed while fast storage is disabled,
+	// so the storage is marked as not upgraded: the index is rebuilt the next time it is enabled.
+	if ndb.hasUpgradedToFastStorage() {
+		ndb.mtx.Lock()
+		err := ndb.batch.Set(metadataKeyFormat.Key([]byte(storageVersionKey)), []byte(defaultStorageVersionValue))
+		if err == nil {
+			ndb.storageVersion = defaultStorageVersionValue
+		}
+		ndb.mtx.Unlock()
+		if err != nil {
+			return err
+		}
+	}
 
 	ndb.resetLatestVersion(dumpFromVersion - 1)
 
